@@ -12,6 +12,20 @@ cli.make_scratch()
 for pn in lens.PROGRAMS:
     harness.prepare_program(catalogue.get(pn), pn)
 rp = json.load(open(path))
+if "-v" in sys.argv:
+    from sim import engine1
+    _step = engine1.Engine.step
+    _opc = engine1.Engine.op_code
+    def op_code(self, op):
+        out = _opc(self, op)
+        print("OP", json.dumps({k: v for k, v in op.items() if k in ("op", "id", "fn", "gen", "how")}), "->", json.dumps(out, default=repr)[:300], flush=True)
+        return out
+    engine1.Engine.op_code = op_code
+    def step(self, op):
+        out = _step(self, op)
+        print("OP", json.dumps({k: v for k, v in op.items() if k in ("op", "id", "fn", "gen", "how")}), "->", json.dumps(out, default=repr)[:300], flush=True)
+        return out
+    engine1.Engine.step = step
 rs = world.run_many(cli._run_task, [{"scenario": rp["scenario"]}], jobs=1, timeout=60)
 r = rs[0]
 if not r.get("ok"):
